@@ -94,7 +94,7 @@ fn start_set(it: &Item) -> Vec<Cls> {
         Item::Fixed(f) => match f {
             Fixed::Nanosecond => vec![Cls::Dot, Cls::Empty],
             Fixed::Nanosecond3 | Fixed::Nanosecond6 | Fixed::Nanosecond9 => vec![Cls::Dot],
-            Fixed::TimezoneOffset | Fixed::TimezoneOffsetColon | Fixed::TimezoneOffsetDoubleColon | Fixed::TimezoneOffsetTripleColon => vec![Cls::Sign],
+            Fixed::TimezoneOffset | Fixed::TimezoneOffsetColon | Fixed::TimezoneOffsetDoubleColon | Fixed::TimezoneOffsetTripleColon | Fixed::TimezoneName => vec![Cls::Sign],
             Fixed::RFC3339 => vec![Cls::Digit, Cls::Sign],
             Fixed::Internal(_) => if internal_name(f).contains("NoDot") { vec![Cls::Digit] } else { vec![Cls::Sign] },
             _ => vec![Cls::Letter],
@@ -124,6 +124,7 @@ fn plausible(fmt: &str) -> bool {
             Item::Fixed(Fixed::Nanosecond) => vec![Cls::Digit, Cls::Dot],
             Item::Fixed(Fixed::Nanosecond3 | Fixed::Nanosecond6 | Fixed::Nanosecond9) => vec![Cls::Digit],
             Item::Fixed(Fixed::LongMonthName | Fixed::LongWeekdayName) => vec![Cls::Letter],
+            Item::Fixed(Fixed::TimezoneName) => vec![Cls::Digit, Cls::Sign, Cls::Dot, Cls::Letter, Cls::Colon, Cls::Other],
             _ => vec![],
         };
         let f = follow(&items, i + 1);
@@ -191,17 +192,17 @@ fn format_one(v: &Val, it: &Item) -> Option<String> {
     r.ok().map(|_| s)
 }
 
-pub fn rt_event(rng: &mut Rng, v: &Val, fw: &str, fr: &str, with_perts: bool) -> Value {
+pub fn rt_event(rng: &mut Rng, v: &Val, pty0: &str, fw: &str, fr: &str, with_perts: bool) -> Value {
     let ty = v.ty();
     let modes = ["upper", "lower", "alt", "asis"];
     let mode = *rng.pick(&modes[..]);
     let ws: String = (0..1 + rng.below(2)).map(|_| *rng.pick(&[' ', '\t', '\n', '\u{a0}', '\u{3000}', '\u{2003}'][..])).collect();
-    ev("rt", json!({"ty": ty, "v": v.json(), "fw": cps(fw), "fr": cps(fr)}), || {
+    ev("rt", json!({"ty": ty, "pty0": pty0, "v": v.json(), "fw": cps(fw), "fr": cps(fr)}), || {
         let text = v.text(fw);
         let mut parsed = Vec::new();
         let mut perts = Vec::new();
         if let Some(t) = &text {
-            let ptys: &[&str] = match ty { "dt" => &["dt", "ndt", "date", "time"], "ndt" => &["ndt", "date", "time"], "date" => &["date"], _ => &["time"] };
+            let ptys: &[&str] = match pty0 { "dt" => &["dt", "ndt", "date", "time"], "ndt" => &["ndt", "date", "time"], "date" => &["date"], _ => &["time"] };
             for pty in ptys {
                 let (r, rem) = parse_both(pty, t, fr);
                 parsed.push(json!({"pty": pty, "r": r, "rem": rem}));
@@ -209,7 +210,7 @@ pub fn rt_event(rng: &mut Rng, v: &Val, fw: &str, fr: &str, with_perts: bool) ->
             if with_perts {
                 for (m, w) in [(mode, ""), ("asis", ws.as_str()), (mode, ws.as_str())] {
                     if let Some(pt) = perturb(v, fw, m, w) {
-                        let (r, _) = parse_both(ty, &pt, fr);
+                        let (r, _) = parse_both(pty0, &pt, fr);
                         perts.push(json!({"mode": m, "ws": cps(w), "text": cps(&pt), "r": r}));
                     }
                 }
@@ -236,25 +237,26 @@ pub fn run(ctx: &Ctx) -> Value {
     zs.extend(c12::headroom());
 
     // format strings: (type, write format, read format)
-    let mut fmts: Vec<(&'static str, String, String)> = Vec::new();
+    let mut fmts: Vec<(&'static str, &'static str, String, String)> = Vec::new();
     let mut seen = std::collections::HashSet::new();
     let mut dropped = 0usize;
-    let mut push = |ty: &'static str, fw: String, fr: String, fmts: &mut Vec<(&'static str, String, String)>| {
+    let mut push2 = |ty: &'static str, pty0: &'static str, fw: String, fr: String, fmts: &mut Vec<(&'static str, &'static str, String, String)>| {
         if !plausible(&fw) { dropped += 1; return; }
-        if seen.insert((ty, fw.clone(), fr.clone())) { fmts.push((ty, fw, fr)); }
+        if seen.insert((ty, pty0, fw.clone(), fr.clone())) { fmts.push((ty, pty0, fw, fr)); }
     };
+    macro_rules! push { ($ty:expr, $fw:expr, $fr:expr, $fmts:expr) => { push2($ty, $ty, $fw, $fr, $fmts) } }
     let time_block = |rng: &mut Rng, b: &str, pm: usize| -> String {
         let mut t = instantiate(rng, b, pm);
         if b.ends_with("%S") || b.ends_with("%T") || b.ends_with("%X") { t.push_str(*rng.pick(&FRACS_AFTER_SEC[..])); }
         t
     };
-    let rounds = ctx.t(2, 12);
+    let rounds = ctx.t(2, 6);
     for round in 0..rounds {
         for b in DATE_BLOCKS.iter() {
-            for pm in 0..3 { let f = instantiate(&mut rng, b, pm); push("date", f.clone(), f, &mut fmts); }
+            for pm in 0..3 { let f = instantiate(&mut rng, b, pm); push!("date", f.clone(), f, &mut fmts); }
         }
         for b in TIME_BLOCKS.iter() {
-            for pm in 0..3 { let f = time_block(&mut rng, b, pm); push("time", f.clone(), f, &mut fmts); }
+            for pm in 0..3 { let f = time_block(&mut rng, b, pm); push!("time", f.clone(), f, &mut fmts); }
         }
         for (i, b) in DATE_BLOCKS.iter().enumerate() {
             for k in 0..ctx.t(2, 4) {
@@ -264,14 +266,16 @@ pub fn run(ctx: &Ctx) -> Value {
                 let t = time_block(&mut rng, c, pm);
                 let g = *rng.pick(&GLUES[..]);
                 let body = if rng.chance(2, 3) { format!("{}{}{}", d, g, t) } else { format!("{}{}{}", t, g, d) };
-                push("ndt", body.clone(), body.clone(), &mut fmts);
+                push!("ndt", body.clone(), body.clone(), &mut fmts);
                 let o = *rng.pick(&OFFS[..]);
                 let z = format!("{}{}", body, o);
-                push("dt", z.clone(), z, &mut fmts);
+                push!("dt", z.clone(), z, &mut fmts);
+                // %Z prints the offset and is skipped (up to the next white space) when read: a zone-aware value read back as naive
+                if k == 1 { let f = format!("{} %Z", body); push2("dt", "ndt", f.clone(), f, &mut fmts); }
                 // the parse-only %#z reads what %z, %:z and %:::z print (as the last item)
-                if k == 0 {
+                if k == 0 && (i + round) % 2 == 0 {
                     for (wr, sp) in [("%z", ""), ("%:z", " "), ("%:::z", " "), ("%:::z", "")] {
-                        push("dt", format!("{}{}{}", body, sp, wr), format!("{}{}%#z", body, sp), &mut fmts);
+                        push!("dt", format!("{}{}{}", body, sp, wr), format!("{}{}%#z", body, sp), &mut fmts);
                     }
                 }
             }
@@ -279,19 +283,19 @@ pub fn run(ctx: &Ctx) -> Value {
         for s in STAMPS.iter() {
             for pm in 0..3 {
                 let f = instantiate(&mut rng, s, pm);
-                push("ndt", f.clone(), f.clone(), &mut fmts);
-                for o in ["", " %z", "%:z", " %:z"] { let z = format!("{}{}", f, o); push("dt", z.clone(), z, &mut fmts); }
+                push!("ndt", f.clone(), f.clone(), &mut fmts);
+                for o in ["", " %z", "%:z", " %:z"] { let z = format!("{}{}", f, o); push!("dt", z.clone(), z, &mut fmts); }
             }
         }
         for f in ["%c", "%+", "%c %z", "%+ %A", "%A %+", "%c%t%:z"] {
-            if !f.contains('z') && !f.contains('+') { push("ndt", f.to_string(), f.to_string(), &mut fmts); }
-            else { push("dt", f.to_string(), f.to_string(), &mut fmts); }
+            if !f.contains('z') && !f.contains('+') { push!("ndt", f.to_string(), f.to_string(), &mut fmts); }
+            else { push!("dt", f.to_string(), f.to_string(), &mut fmts); }
         }
     }
     // values per format
-    let per = ctx.t(20, 160);
+    let per = ctx.t(20, 60);
     let (mut n_rt, mut by_ty) = (0usize, serde_json::Map::new());
-    for (k, (ty, fw, fr)) in fmts.iter().enumerate() {
+    for (k, (ty, pty0, fw, fr)) in fmts.iter().enumerate() {
         for j in 0..per {
             let idx = k * 31 + j * 17;
             let v = match *ty {
@@ -300,7 +304,7 @@ pub fn run(ctx: &Ctx) -> Value {
                 "ndt" => Val::N(nds[idx % nds.len()]),
                 _ => Val::Z(zs[idx % zs.len()]),
             };
-            tw.emit(rt_event(&mut rng, &v, fw, fr, j % 3 == 0 || th));
+            tw.emit(rt_event(&mut rng, &v, pty0, fw, fr, j % 3 == 0 || th));
             n_rt += 1;
         }
         let e = by_ty.entry(ty.to_string()).or_insert(json!(0));
